@@ -145,6 +145,7 @@ class C30(Check):
     shrink_fields = ()
 
     def selftest(self):
+        gens.tame_tqdm()
         assert overlaps((1, 3, "X"), (2, 4, "X")) and overlaps((2, 2, "X"), (1, 3, ""))
         assert overlaps((2, 2, "X"), (2, 2, "Y")) and overlaps((1, 3, "X"), (1, 3, ""))
         assert not overlaps((1, 3, "X"), (3, 4, "X")) and not overlaps((1, 1, "X"), (1, 3, ""))
@@ -316,6 +317,7 @@ class C30(Check):
         import sqlfluff.core.linter.linter as linter_mod
         from sqlfluff.core import Linter
 
+        gens.tame_tqdm()
         out.label("real-fix", "real:" + case.get("templater", "raw"))
         captured = []
         orig = linter_mod.merge_source_patches
